@@ -7,21 +7,13 @@
    translation before the fix. *)
 From Coq Require Import List ZArith NArith String Bool.
 From SCC Require Import Lang.FunSyn Lang.CoreSyn Model.Check Sem.FunErase Sem.FsCheck Sem.CoreCheck
-     Model.Fun2Core Model.Fun2CoreTyGuard Proof.Fun2CoreProof Proof.Fun2CoreTyProg Proof.Fun2CoreTyTotal
+     Model.Fun2Core Model.Fun2CoreTyGuard Model.WtDefs Proof.Fun2CoreProof Proof.Fun2CoreTyProg Proof.Fun2CoreTyTotal
      Proof.Fun2CoreTyChecked Proof.Fun2CoreTyRefute Proof.WtExamples2.
 Import ListNotations.
 Open Scope string_scope.
 
-(* corpus/fun/call_main_tail.sc as the type checker annotates it: main is called in tail position only *)
-Definition call_main_tail_witness : fcprog :=
-  mkfcprog [] []
-    [mkfdef "main" [mkfb "n" FPrd FI64] FI64
-       (FIfC FEq (FVar "n" (Some FI64) (Some FPrd)) None
-          (FLit 0)
-          (FPrint true (FVar "n" (Some FI64) (Some FPrd))
-             (FCall "main" [FLit 0] (Some FI64))
-             (Some FI64))
-          (Some FI64))].
+(* [WtDefs.call_main_tail_witness]: corpus/fun/call_main_tail.sc as the type checker annotates it (main is called in tail
+   position only; modelrun wt-stages compares the value with the real CheckedProgram on every run) *)
 Definition call_main_tail_source : fprog :=
   mkfprog (map (fun d => FDDef (erase_def d)) (fcpdefs call_main_tail_witness)).
 
